@@ -38,11 +38,13 @@ SCall == /\ Busy /\ Tick
                ICall(c, rs, try) /\ Log(sgi, [op |-> "call", c |-> c, rs |-> rs, try |-> try])
 SReturn == IReturn /\ Tick /\ Log(sgi, [op |-> "ret"])
 SUpdate == /\ Busy /\ Tick
-           /\ \E c \in Contracts, g \in SUBSET Groups : IUpdate(c, g) /\ Log(sgi, [op |-> "upd", c |-> c, groups |-> g])
+           /\ \E c \in Contracts, g \in SUBSET Groups, cb \in BOOLEAN :
+                 IUpdate(c, g, cb) /\ Log(sgi, [op |-> "upd", c |-> c, groups |-> g, cb |-> cb])
 SDestroy == /\ Busy /\ Tick
             /\ \E c \in Contracts : IDestroy(c) /\ Log(sgi, [op |-> "destroy", c |-> c])
 SDeploy == /\ Busy /\ Tick
-           /\ \E c \in Contracts, g \in SUBSET Groups : IDeploy(c, g) /\ Log(sgi, [op |-> "deploy", c |-> c, groups |-> g])
+           /\ \E c \in Contracts, g \in SUBSET Groups, cb \in BOOLEAN :
+                 IDeploy(c, g, cb) /\ Log(sgi, [op |-> "deploy", c |-> c, groups |-> g, cb |-> cb])
 SThrow == /\ Busy /\ Tick /\ IThrow /\ Log(sgi, [op |-> "throw"])
 SHalt == steps >= 4 /\ IEndTx("HALT") /\ Tick /\ Log(sgi, [op |-> "endtx", how |-> "HALT"])
 \* ABORT of the executing frame, or an exception nobody catches
